@@ -182,7 +182,10 @@ pub struct BlockHeader {
 }
 
 pub struct SqPackData {
+    #[cfg(not(feature = "verif_sim"))]
     file: std::fs::File,
+    #[cfg(feature = "verif_sim")]
+    file: crate::vfs::File,
 }
 
 // from https://users.rust-lang.org/t/how-best-to-convert-u8-to-u16/57551/4
@@ -195,7 +198,10 @@ impl SqPackData {
     /// Creates a new reference to an existing dat file.
     pub fn from_existing(path: &str) -> Option<Self> {
         Some(Self {
+            #[cfg(not(feature = "verif_sim"))]
             file: std::fs::File::open(path).ok()?,
+            #[cfg(feature = "verif_sim")]
+            file: crate::vfs::File::open(path).ok()?,
         })
     }
 
